@@ -61,6 +61,37 @@ pub struct Case {
     pub seed: u64,
     /// call `Replacement::replace` directly instead of `Component::execute`
     pub direct: bool,
+    /// per individual (parents first, then offspring; cyclic): objective value moved by that many representable values
+    #[serde(default)]
+    pub ulps: Vec<i8>,
+    /// all objective values scaled by 1e-17 (differences far below f64::EPSILON)
+    #[serde(default)]
+    pub tiny: bool,
+    /// the component is executed inside that many nested scopes (the population stack lives outside of them)
+    #[serde(default)]
+    pub nest: u8,
+}
+
+fn fine(c: &Case, idx: usize, o: Option<i8>) -> Option<f64> {
+    let v = obj_of(o?);
+    if !v.is_finite() {
+        return Some(v);
+    }
+    let mut v = if c.tiny { v * 1e-17 } else { v };
+    if !c.ulps.is_empty() {
+        let k = c.ulps[idx % c.ulps.len()];
+        for _ in 0..k.unsigned_abs() {
+            v = if k > 0 { crate::props::c10::next_up(v) } else { crate::props::c10::next_down(v) };
+        }
+    }
+    Some(v)
+}
+
+fn mkv(v: &V) -> Individual<RealP> {
+    match v.1 {
+        Some(o) => Individual::new(vec![v.0 as f64], o.try_into().unwrap()),
+        None => Individual::new_unevaluated(vec![v.0 as f64]),
+    }
 }
 
 pub struct ReplCheck;
@@ -92,7 +123,7 @@ impl Check for ReplCheck {
         "C12/replacement".into()
     }
     fn classes(&self) -> &'static [&'static str] {
-        &["both non-empty", "cross-population tie at the cut", "mu < total", "mu == 0", "mu > total", "duplicates by value", "unequal sizes", "via Replacement::replace", "+inf objective", "populations below"]
+        &["both non-empty", "cross-population tie at the cut", "mu < total", "mu == 0", "mu > total", "duplicates by value", "unequal sizes", "via Replacement::replace", "+inf objective", "populations below", "distinct objective values within a few representable steps or f64::EPSILON of each other", "executed inside nested scopes"]
     }
     fn oracle(&self, c: &Case) -> Outcome {
         let mut cl = 0u64;
@@ -116,8 +147,17 @@ fn oracle(c: &Case, cl: &mut u64) -> Result<(), Failure> {
             }
         }
     }
-    let pv: Vec<V> = parents.iter().map(mview).collect();
-    let ov: Vec<V> = offspring.iter().map(mview).collect();
+    let pv: Vec<V> = parents.iter().enumerate().map(|(k, i)| (i.0, fine(c, k, i.1))).collect();
+    let ov: Vec<V> = offspring.iter().enumerate().map(|(k, i)| (i.0, fine(c, parents.len() + k, i.1))).collect();
+    {
+        let fin: Vec<f64> = pv.iter().chain(ov.iter()).filter_map(|v| v.1).filter(|o| o.is_finite()).collect();
+        if (0..fin.len()).any(|i| (0..i).any(|j| fin[i] != fin[j] && (fin[i] - fin[j]).abs() <= 4.0 * f64::EPSILON * fin[i].abs().max(fin[j].abs()).max(f64::MIN_POSITIVE) || (fin[i] != fin[j] && (fin[i] - fin[j]).abs() <= f64::EPSILON))) {
+            *cl |= 1 << 10;
+        }
+    }
+    if c.nest > 0 && !c.direct {
+        *cl |= 1 << 11;
+    }
     let total = pv.len() + ov.len();
     if !pv.is_empty() && !ov.is_empty() {
         *cl |= 1;
@@ -157,8 +197,8 @@ fn oracle(c: &Case, cl: &mut u64) -> Result<(), Failure> {
     let mut below_after: Option<Vec<Vec<V>>> = None;
     if c.direct {
         let mut rng = Random::new(c.seed);
-        let p: Vec<_> = parents.iter().map(mk).collect();
-        let o: Vec<_> = offspring.iter().map(mk).collect();
+        let p: Vec<_> = pv.iter().map(mkv).collect();
+        let o: Vec<_> = ov.iter().map(mkv).collect();
         let r = catch(|| match &c.op {
             Op::Merge => Replacement::<RealP>::replace(&Merge, p, o, &mut rng),
             Op::Generational(m) => Replacement::<RealP>::replace(&Generational::from_params(*m), p, o, &mut rng),
@@ -178,8 +218,8 @@ fn oracle(c: &Case, cl: &mut u64) -> Result<(), Failure> {
         for b in &c.below {
             ps.push(b.iter().map(mk).collect());
         }
-        ps.push(parents.iter().map(mk).collect());
-        ps.push(offspring.iter().map(mk).collect());
+        ps.push(pv.iter().map(mkv).collect());
+        ps.push(ov.iter().map(mkv).collect());
         state.insert(ps);
         state.insert(Random::new(c.seed));
         let comp: Box<dyn Component<RealP>> = match &c.op {
@@ -190,7 +230,14 @@ fn oracle(c: &Case, cl: &mut u64) -> Result<(), Failure> {
             Op::RandomReplacement(m) => RandomReplacement::new(*m),
             Op::KeepBetterAtIndex => KeepBetterAtIndex::new(),
         };
+        let mut comp = comp;
+        for _ in 0..c.nest % 4 {
+            comp = mahf::components::Scope::new(vec![comp]);
+        }
         let r = catch(|| comp.execute(&problem, &mut state));
+        if matches!(r, Ok(Ok(()))) && state.try_borrow::<Populations<RealP>>().is_err() {
+            fail!(format!("C12 {} loses the population stack", op_name(&c.op)), "{at}: executed inside {} nested scope(s): afterwards the state holds no population stack", c.nest % 4);
+        }
         match r {
             Ok(Ok(())) => {
                 let ps = state.populations();
@@ -279,12 +326,12 @@ fn op_strategy() -> impl Strategy<Value = Op> {
 }
 
 fn case_strategy() -> impl Strategy<Value = Case> {
-    (op_strategy(), proptest::collection::vec(proptest::collection::vec(ind_strategy(), 0..3), 0..3), proptest::collection::vec(ind_strategy(), 0..9), proptest::collection::vec(ind_strategy(), 0..9), any::<u64>(), any::<bool>(), any::<bool>()).prop_map(
-        |(op, below, parents, mut offspring, seed, direct, equalise)| {
+    (op_strategy(), proptest::collection::vec(proptest::collection::vec(ind_strategy(), 0..3), 0..3), proptest::collection::vec(ind_strategy(), 0..9), proptest::collection::vec(ind_strategy(), 0..9), any::<u64>(), any::<bool>(), any::<bool>(), (prop_oneof![3 => Just(Vec::new()), 2 => proptest::collection::vec(prop_oneof![3 => Just(0i8), 1 => Just(1i8), 1 => Just(-1i8), 1 => Just(2i8)], 1..6)], prop_oneof![5 => Just(false), 1 => Just(true)], prop_oneof![3 => Just(0u8), 1 => 1u8..4])).prop_map(
+        |(op, below, parents, mut offspring, seed, direct, equalise, (ulps, tiny, nest))| {
             if matches!(op, Op::KeepBetterAtIndex) && equalise {
                 offspring.resize(parents.len(), (3, Some(1)));
             }
-            Case { op, below, parents, offspring, seed, direct }
+            Case { op, below, parents, offspring, seed, direct, ulps, tiny, nest }
         },
     )
 }
@@ -310,7 +357,7 @@ fn exhaustive() -> Vec<Case> {
         for o in &pops {
             for op in &ops {
                 for direct in [false, true] {
-                    out.push(Case { op: op.clone(), below: if direct { vec![] } else { vec![vec![(9, None)]] }, parents: p.clone(), offspring: o.clone(), seed: 7, direct });
+                    out.push(Case { op: op.clone(), below: if direct { vec![] } else { vec![vec![(9, None)]] }, parents: p.clone(), offspring: o.clone(), seed: 7, direct, ulps: Vec::new(), tiny: false, nest: if direct { 0 } else { (p.len() + o.len()) as u8 % 3 } });
                 }
             }
         }
@@ -319,7 +366,7 @@ fn exhaustive() -> Vec<Case> {
 }
 
 pub fn run_all(ctx: &mut Ctx, replay: Option<&Path>) {
-    ctx.rule("case = (operator, mu, populations below, parents, offspring, seed, via Component::execute or Replacement::replace) over tagged individuals with ties, duplicates by value, unevaluated and +inf objectives; oracle: stack height -1 and populations below untouched, result is a sub-multiset of parents (+) offspring, content per operator (Merge/Generational/DiscardOffspring exact, MuPlusLambda = min(mu,total) individuals whose objective multiset is the mu smallest, RandomReplacement size, KeepBetterAtIndex index-wise strictly better with parent on ties, Err on unequal sizes); non-trivial = both populations non-empty with mu < total and a parent/offspring tie at the cut, or duplicates by value; distinct by case");
+    ctx.rule("case = (operator, mu, populations below, parents, offspring, seed, via Component::execute or Replacement::replace) over tagged individuals with ties, duplicates by value, unevaluated and +inf objectives, objective values 1-2 representable steps apart and values of magnitude 1e-17; the component also executed inside 1-3 nested scopes while the population stack lives outside them; oracle: stack height -1 and populations below untouched, result is a sub-multiset of parents (+) offspring, content per operator (Merge/Generational/DiscardOffspring exact, MuPlusLambda = min(mu,total) individuals whose objective multiset is the mu smallest, RandomReplacement size, KeepBetterAtIndex index-wise strictly better with parent on ties, Err on unequal sizes); non-trivial = both populations non-empty with mu < total and a parent/offspring tie at the cut, or duplicates by value; distinct by case");
     ctx.assume("MuPlusLambda and KeepBetterAtIndex get evaluated individuals only (every caller evaluates first)");
     let k = ReplCheck;
     if let Some(p) = replay {
